@@ -7,7 +7,7 @@ from ..worldprop import base_outcome, completion, REAL_VS_STUB  # noqa
 
 np = sut.np
 ID = "C07"
-RUNS = {"quick": 3500, "thorough": 100000}
+RUNS = {"quick": 7000, "thorough": 100000}
 BUDGET = {"quick": 50, "thorough": 800}
 RULE = ("three-phase networks dimensioned so constraints bind in a good share of calls, continuous-from-zero and finite-rate "
         "EVSEs (unsorted/duplicated/no explicit 0), demands from a fraction of one minimum-pilot period to more than "
